@@ -217,3 +217,44 @@ func init() {
 		{"pkg/slayers/path/epic", "HVFLen", "EpicHVFLen"},
 	}))
 }
+
+// group "spao": constants of pkg/spao/mac.go and the literal mask applied to TrafficClass in
+// serializeAuthenticatedData (`s.TrafficClass&0x3f`).
+func init() {
+	register("spao", func(c *Ctx) error {
+		var sb strings.Builder
+		sb.WriteString("namespace Scion.Gen.Spao\n")
+		v, err := wireConst(c, "pkg/spao", "MACBufferSize", 0)
+		if err != nil {
+			return err
+		}
+		fmt.Fprintf(&sb, "/-- `pkg/spao.MACBufferSize` -/\ndef MACBufferSize : Nat := %s\n", v.String())
+		fd, err := c.Func("pkg/spao", "", "serializeAuthenticatedData")
+		if err != nil {
+			return err
+		}
+		var masks []string
+		ast.Inspect(fd, func(n ast.Node) bool {
+			be, ok := n.(*ast.BinaryExpr)
+			if !ok || be.Op != token.AND {
+				return true
+			}
+			sel, ok := be.X.(*ast.SelectorExpr)
+			if !ok || sel.Sel.Name != "TrafficClass" {
+				return true
+			}
+			if lit, ok := be.Y.(*ast.BasicLit); ok && lit.Kind == token.INT {
+				if m, ok := new(big.Int).SetString(lit.Value, 0); ok {
+					masks = append(masks, m.String())
+				}
+			}
+			return true
+		})
+		if len(masks) != 1 {
+			return fmt.Errorf("expected exactly one `TrafficClass&<literal>` in serializeAuthenticatedData, found %d", len(masks))
+		}
+		fmt.Fprintf(&sb, "/-- literal mask in `s.TrafficClass&…` of `serializeAuthenticatedData` -/\ndef tcMask : Nat := %s\n", masks[0])
+		sb.WriteString("end Scion.Gen.Spao\n")
+		return c.Emit("Spao.lean", sb.String())
+	})
+}
